@@ -157,6 +157,76 @@ def one_history(ctx, r):
         shutil.rmtree(outer, ignore_errors=True)
 
 
+def parked_attach(ctx, r):
+    """the evidence recorded with a result (sha256, mtime) describes the file as it is when the result is recorded — inside the lock section that
+    also checks that the task is live and stamps created_at.  The attaching process is parked right after its first call on the store (before it
+    has the lock); the file is rewritten, or removed, by somebody else; the process goes on.  What it records must be the file as it is then."""
+    import tempfile, shutil
+    from .. import sched, strace
+    outer = os.path.realpath(tempfile.mkdtemp(prefix="ergo-verif-c20p-"))
+    root = os.path.join(outer, "proj")
+    os.makedirs(os.path.join(root, "out"))
+    st = cmdrun.Store(ctx.ergo, ctx.go, root=root)
+    trace = []
+    pk = None
+    try:
+        def ex(argv, stdin=None):
+            rr = st.exec(argv, stdin); trace.append({"argv": argv, "stdin": None if stdin is None else stdin.decode(), "exit": rr["exit"]}); return rr
+        tid = json.loads(ex(["--json", "new", "task"], b'{"title":"deliver"}')["stdout"])["id"]
+        rel = "out/report.txt"
+        full = os.path.join(root, rel)
+        open(full, "wb").write(b"first version\n" * (1 + r.n(2000)))
+        what = r.pick(["rewrite", "rewrite-keep-mtime", "remove"])
+        mode = r.pick(["json", "flags", "new"])
+        if mode == "json":
+            argv, stdin = ["--json", "--agent", "ag", "set", tid], json.dumps({"result_path": rel, "result_summary": "the report"}).encode()
+        elif mode == "flags":
+            argv, stdin = ["--json", "--agent", "ag", "set", tid, "--result-path", rel, "--result-summary", "the report"], None
+        else:
+            argv, stdin = ["--json", "--agent", "ag", "new", "task"], json.dumps({"title": "with result", "result_path": rel, "result_summary": "the report"}).encode()
+        pk = sched.Parked(st, argv, stdin, ("openat", 1))
+        if not pk.parked:
+            pk.wait(5); pk = None
+            ctx.count(1, key=("parked-attach", "skipped: not parked")); return
+        at = (strace.summarize(pk.steps_at_park) or ["-"])[-1]
+        if any(s_["call"] == "flock" for s_ in pk.steps_at_park):          # only a process that has not asked for the lock yet is "before" it
+            pk.resume(); pk = None
+            ctx.count(1, key=("parked-attach", "skipped: parked too late")); return
+        stt = os.stat(full)
+        if what == "remove":
+            os.unlink(full)
+        else:
+            open(full, "wb").write(b"second version, written while the attaching command was waiting\n")
+            if what == "rewrite-keep-mtime":
+                os.utime(full, ns=(stt.st_atime_ns, stt.st_mtime_ns))
+        step = {"A": argv, "A_stdin": None if stdin is None else stdin.decode(), "schedule": "A parked after its first call on the store (%s), before it holds the lock; %s is %s; A resumes" %
+                (at, rel, {"remove": "removed", "rewrite": "rewritten", "rewrite-keep-mtime": "rewritten and its modification time restored"}[what])}
+        ra = pk.resume(); pk = None
+        if ra.get("tracer_error") or ra["exit"] == -9:
+            ctx.count(1, key=("parked-attach", "skipped: tracer")); return
+        ctx.count(1, key=("parked-attach", what, mode, ra["exit"] == 0))
+        g = st.graph()
+        if "err" in g:
+            ctx.violation("C20 store unreadable after attach", g["err"][:200], {"trace": trace + [step]}); return
+        recs = [(t["id"], x) for t in g["graph"]["tasks"] for x in t["results"]]
+        if what == "remove":
+            if ra["exit"] == 0 or recs:
+                ctx.violation("C20 result recorded for a file that does not exist", "the file was removed before the command had the lock; exit %s, %d result(s) recorded" % (ra["exit"], len(recs)),
+                              {"trace": trace + [step]})
+            return
+        if ra["exit"] != 0:
+            return
+        sha = hashlib.sha256(open(full, "rb").read()).hexdigest()
+        if not recs or recs[0][1]["sha"] != sha:
+            ctx.violation("C20 recorded sha256 is not the file's", "the result's sha256_at_attach is %s; the file (unchanged since before the command took the lock) hashes to %s: the evidence was taken "
+                          "before the lock section that records it" % (recs[0][1]["sha"][:16] if recs else None, sha[:16]), {"trace": trace + [step]})
+    finally:
+        if pk is not None:
+            pk.kill()
+        st.close()
+        shutil.rmtree(outer, ignore_errors=True)
+
+
 def run(ctx):
     # results through replay and compaction (random event lists: several results per task, equal and decreasing timestamps, tombstones)
     rr_ = fndiff.run_stream(ctx.ev, ["fn-replay", str(ctx.seed + 2001), "1500" if ctx.quick else "20000"])
@@ -172,6 +242,8 @@ def run(ctx):
     r = gen.Rng(ctx.seed * 1000003 + 20)
     for h in range(10 if ctx.quick else 150):
         one_history(ctx, r.fork())
+    for h in range(6 if ctx.quick else 80):
+        parked_attach(ctx, r.fork())
     ctx.cov["rule"] = ("generated path strings against a real tree (files, directories, a FIFO, symlinks in and out, Unicode names, .ergo look-alikes) → Go validateResultPath/Clean vs model; "
                        "attach histories through the real binary (json and flags, with and without another field): accepted ⇒ cleaned path confined, regular file, sha256 of content, "
                        "absolute file:// URL from any cwd; rejected ⇒ nothing changed; results newest-first and untouched by compact/set/prune/sequence; 4 s hang detector")
